@@ -122,7 +122,8 @@ func ParseIntegerAsPercentageIfPossible(stableReplicas, allReplicas int32, canar
 		return intstr.FromString("0%")
 	}
 
-	pValue := stableReplicas * 100 / allReplicas
+	// multiply in 64 bits: stableReplicas * 100 does not fit int32 for very large workloads
+	pValue := int64(stableReplicas) * 100 / int64(allReplicas)
 	percent := intstr.FromString(fmt.Sprintf("%v%%", pValue))
 	restoredStableReplicas, _ := intstr.GetScaledValueFromIntOrPercent(&percent, int(allReplicas), true)
 	// restoredStableReplicas == 0 is un-tolerated if user-defined canaryReplicas is not 100%.
